@@ -34,8 +34,9 @@ ASSUMPTIONS = [
     "for TRSList the 'i' key is a stable no-op (TRS objects carry no creation counter)",
 ]
 
-POOL = ['2n3w05', '2s3w05', '5n1e01', '5s1e36', '2n3w36', 'XXXzXXXzXX', '___z___z__',
-        '2nXXXz05', '___z3w05', '5n1eXX', '0n0w00']
+# numbers of different digit counts (2 / 10 / 100, 3 / 11) so that a string comparison sorts differently from a numeric one
+POOL = ['2n3w05', '2s3w05', '10n1e01', '10s11e36', '2n3w36', 'XXXzXXXzXX', '___z___z__',
+        '2nXXXz05', '___z3w05', '100n11eXX', '0n0w00']
 SUB = ['i', 't', 't.num', 't.ns', 't.sn', 'r', 'r.num', 'r.ew', 'r.we', 's', 's.num']
 KEYS1 = [s + r for s in SUB for r in ('', '.rev', '.reverse')]
 KEYS_SHORT = [s + r for s in SUB for r in ('', '.rev')]
